@@ -1,5 +1,6 @@
 import BycycleModel.Routing
 import Proofs.Zerox
+import Proofs.ZeroxOffset
 /-!
 # C03 — flank midpoints sit where the flank crosses its half-height
 
@@ -87,6 +88,17 @@ example : validSeq 8 (interleave (decide (2 < 0)) [2, 7] [0, 5]) = true ∧
     (interleave (decide (2 < 0)) [2, 7] [0, 5]).length = 4 := by decide +kernel
 example : crossingsSpec [0, 2, 0, 2, 0, 2, 1] .rise (1/2) = [0, 2, 4] ∧ flankMidSpec [0, 2, 0, 2, 0, 2, 1] .rise = 2 := by
   decide +kernel
+
+/-- POSITION INDEPENDENCE: the midpoints of a flank do not depend on where in the recording the flank sits. Prepending any stretch `pre` to the signal and
+shifting every extremum by its length shifts every midpoint by the same amount and changes nothing else (errors included) - for recordings of every length,
+so that what the directed long cases of the correspondence run (flanks beyond sample 2^16 and 2^17) can still expose is exactly a dependence of the
+implementation on the SIZE of an index, which the definition does not have. -/
+theorem C03_offset (pre sig : List Rat) (peaks troughs : List Nat) :
+    findZerox (pre ++ sig) (peaks.map (· + pre.length)) (troughs.map (· + pre.length))
+      = (findZerox sig peaks troughs).map (fun rd => (rd.1.map (· + pre.length), rd.2.map (· + pre.length))) :=
+  findZerox_offset pre sig peaks troughs
+
+example : findZerox ([5, 5, 5] ++ [0, 1, 2, 1, 0, -1, 0, 2]) [5, 10] [3, 8] = .ok ([4, 9], [6]) := by decide +kernel
 
 /-- the wiring read off the source: `find_extrema` searches the crossings of the FILTERED signal, `find_zerox` searches every rise from a trough to a
 peak and every decay from a peak to a trough on the signal it was given. -/
